@@ -6,9 +6,10 @@ The theorems talk about `EzdxfVerif.Transform` (Model/Transform.lean): hand-writ
 (Gen/TransformKernels.lean).  Numbers are exact rationals; square roots enter through a parameter `sqrt` and every theorem
 assumes `sqrt x * sqrt x = x` (and `0 < sqrt x` where a sign matters) only for the radicands that are evaluated; angles are
 unit direction vectors.  Helper lemmas live in Lemmas/Transform.lean; every `theorem` below is a counted obligation.
-Statements that are FALSE for the code as it is (and for the model, which copies it) are kept as counterexample theorems next
-to the `_partial` version that holds: they are the findings C12-F1 (uniform test), C12-F2/F3 (thickness sign / zero) and
-C12-Fa (rotated INSERT), all replayed on the real code by the oracle of harness/props/c12.py.
+The findings C12-F1 (uniform test ignored the angle), C12-F2/F3 (thickness sign / zero) and C12-Fa (rotated INSERT) are FIXED
+in /repo (09cb6723e, abadd9f3f, 603b8b3fe); their former counterexample theorems are replaced by the full-strength statements
+(`uniform_detected_iff`, `thickness_vector_law`, `insert_rotated_example`).  Reverting one of the fixes changes
+Gen/TransformKernels.lean (or the correspondence) and re-opens these proofs.
 -/
 import EzdxfVerif.Lemmas.Transform
 
@@ -76,50 +77,49 @@ theorem line_law (sqrt : Rat → Rat) (m : M44) (l l' : Line) (h : Line.transfor
 
 /-! ### thickness and extrusion of LINE / POINT (`transform_thickness_and_extrusion_without_ocs`) -/
 
-/-- for a POSITIVE thickness the extruded side is mapped correctly: new thickness · new extrusion = m (thickness · extrusion) -/
-theorem thickness_vector_law_partial (sqrt : Rat → Rat) (m : M44) (t : Rat) (n : Option V3) (t' : Option Rat) (n' : Option V3)
-    (ht : 0 < t)
-    (hs : let v := applyDir m (V3.smul t (n.getD ⟨0, 0, 1⟩)); sqrt (magSq v) * sqrt (magSq v) = magSq v)
+private theorem sign_sq (t : Rat) : sign t * sign t = 1 := by
+  unfold sign; split <;> norm_num
+
+/-- the extruded side of a LINE / POINT is mapped correctly for EVERY thickness (positive, negative, zero) and every
+    matrix: new thickness · new extrusion = m (thickness · extrusion), whenever the transformation succeeds.
+    (Was false for thickness ≤ 0 before the fix abadd9f3f: findings C12-F2 / C12-F3.) -/
+theorem thickness_vector_law (sqrt : Rat → Rat) (m : M44) (t : Rat) (n : Option V3) (t' : Option Rat) (n' : Option V3)
     (h : thicknessNoOcs sqrt m (some t) n = .ok (t', n')) :
     thicknessVector t' n' = applyDir m (thicknessVector (some t) n) := by
-  simp only [thicknessNoOcs] at h hs
-  split at h
-  · cases h
-  · rename_i hr
-    cases h
-    have hsg : sign t = 1 := by unfold sign; rw [if_neg (not_lt.mpr (le_of_lt ht))]
-    simp only [thicknessVector, Option.getD_some, hsg]
-    generalize applyDir m (V3.smul t (n.getD ⟨0, 0, 1⟩)) = v at *
-    generalize sqrt (magSq v) = r at *
-    obtain ⟨vx, vy, vz⟩ := v
-    simp only [V3.smul, V3.mk.injEq]
-    refine ⟨?_, ?_, ?_⟩ <;> field_simp
-
-/-- FINDING C12-F2 (model = code): for a NEGATIVE thickness the result is the OPPOSITE of the image, for every matrix
-    (identity and translations included): the sign is applied to the thickness but not undone in the extrusion -/
-theorem thickness_negative_flips (sqrt : Rat → Rat) (m : M44) (t : Rat) (n : Option V3) (t' : Option Rat) (n' : Option V3)
-    (ht : t < 0)
-    (h : thicknessNoOcs sqrt m (some t) n = .ok (t', n')) :
-    thicknessVector t' n' = V3.smul (-1) (applyDir m (thicknessVector (some t) n)) := by
   simp only [thicknessNoOcs] at h
   split at h
-  · cases h
-  · rename_i hr
-    cases h
-    have hsg : sign t = -1 := by unfold sign; rw [if_pos ht]
-    simp only [thicknessVector, Option.getD_some, hsg]
-    generalize applyDir m (V3.smul t (n.getD ⟨0, 0, 1⟩)) = v at *
-    generalize sqrt (magSq v) = r at *
-    obtain ⟨vx, vy, vz⟩ := v
-    simp only [V3.smul, V3.mk.injEq]
-    refine ⟨?_, ?_, ?_⟩ <;> field_simp
+  · rename_i h0
+    subst h0
+    have hz : applyDir m (thicknessVector (some 0) n) = ⟨0, 0, 0⟩ := by
+      simp [thicknessVector, applyDir, TransformKernels.mTransformDirection, V3.smul]
+    rw [hz]
+    cases n with
+    | none => cases h; simp [thicknessVector, V3.smul]
+    | some e =>
+      simp only at h
+      split at h
+      · cases h
+      · cases h; simp [thicknessVector, V3.smul]
+  · split at h
+    · cases h
+    · rename_i hr
+      cases h
+      simp only [thicknessVector, Option.getD_some]
+      generalize applyDir m (V3.smul t (n.getD ⟨0, 0, 1⟩)) = v at *
+      generalize sqrt (magSq v) = r at *
+      have hs := sign_sq t
+      obtain ⟨vx, vy, vz⟩ := v
+      simp only [V3.smul, V3.mk.injEq]
+      refine ⟨?_, ?_, ?_⟩
+      · field_simp; linear_combination vx * hs
+      · field_simp; linear_combination vy * hs
+      · field_simp; linear_combination vz * hs
 
-/-- FINDING C12-F3 (model = code): an explicit thickness 0 makes every transformation fail with ZeroDivisionError -/
-theorem thickness_zero_raises (sqrt : Rat → Rat) (h0 : sqrt 0 = 0) (m : M44) (n : Option V3) :
-    thicknessNoOcs sqrt m (some 0) n = .error .zeroDivision := by
-  have : magSq (applyDir m (V3.smul 0 (n.getD ⟨0, 0, 1⟩))) = 0 := by
-    simp [magSq, applyDir, TransformKernels.mTransformDirection, V3.smul, V3.dot]
-  simp [thicknessNoOcs, this, h0]
+/-- an explicit thickness of 0 never makes the transformation fail on its own account: without an extrusion attribute the
+    pair is returned unchanged (ZeroDivisionError before the fix: finding C12-F3) -/
+theorem thickness_zero_ok (sqrt : Rat → Rat) (m : M44) :
+    thicknessNoOcs sqrt m (some 0) none = .ok (some 0, none) := by
+  simp [thicknessNoOcs]
 
 /-! ## 2. OCS entities: vertices, directions, thickness -/
 
@@ -210,42 +210,54 @@ theorem extrusion_parallel_similarity (old : Ocs) (m : M44) (k2 : Rat) (hm : IsS
 
 /-! ## 4. decision logic: uniform scaling test and NonUniformScalingError -/
 
-/-- the `is_uniform` flag is exactly `math.isclose(|m x̂|², |m ŷ|², abs_tol=1e-9)` -/
+/-- the `is_uniform` flag is exactly: equal squared lengths of the two image axes (math.isclose, abs_tol 1e-9) AND
+    |m x̂ · m ŷ| ≤ 1e-9 · max(|m x̂|², |m ŷ|²) -/
 theorem uniform_flag_spec (sqrt : Rat → Rat) (old : Ocs) (m : M44) (n : V3) (u : Bool)
     (h : transformExtrusion sqrt old m = .ok (n, u)) :
-    u = pyIsclose (magSq (applyDir m old.ux)) (magSq (applyDir m old.uy)) tol9 tol9 := by
+    u = uniformTest (applyDir m old.ux) (applyDir m old.uy) := by
   rw [extrusion_spec] at h
   simp only at h
   split at h
   · cases h
   · cases h; rfl
 
-/-- completeness: a matrix that acts as a similarity on the entity plane is always accepted -/
+private theorem magSq_nonneg (v : V3) : 0 ≤ magSq v := by
+  simp only [magSq, V3.dot]
+  nlinarith [mul_self_nonneg v.x, mul_self_nonneg v.y, mul_self_nonneg v.z]
+
+/-- completeness: a matrix that acts as a similarity on the entity plane (equal lengths, right angle kept) is accepted -/
 theorem uniform_detected_of_similar (sqrt : Rat → Rat) (old : Ocs) (m : M44) (n : V3) (u : Bool)
     (h : transformExtrusion sqrt old m = .ok (n, u))
-    (heq : magSq (applyDir m old.ux) = magSq (applyDir m old.uy)) : u = true := by
-  rw [uniform_flag_spec sqrt old m n u h, heq]
-  simp [pyIsclose]
+    (heq : magSq (applyDir m old.ux) = magSq (applyDir m old.uy))
+    (hperp : V3.dot (applyDir m old.ux) (applyDir m old.uy) = 0) : u = true := by
+  rw [uniform_flag_spec sqrt old m n u h]
+  have h0 := magSq_nonneg (applyDir m old.uy)
+  simp only [uniformTest, heq, hperp, lt_irrefl, if_false, Bool.and_eq_true, decide_eq_true_eq]
+  refine ⟨by simp [pyIsclose], ?_⟩
+  have : pyAbs 0 = 0 := by simp [pyAbs]
+  rw [this]
+  have : (0 : Rat) ≤ tol9 := by unfold tol9; norm_num
+  positivity
 
-/-- FINDING C12-F1 (model = code): the converse is false.  The full statement
-      `u = true → the images of x̂ and ŷ are perpendicular (so circles stay circles)`
-    does not hold: "rotate by 45° about z, then scale x by 2" keeps the two lengths equal (5/2) but not the right angle
-    (dot product -3/2), and is reported as uniform.  CIRCLE / ARC / bulges are then kept although ellipses are required. -/
-theorem uniform_flag_ignores_angle :
-    ∃ (m : M44) (n : V3), transformExtrusion (fun x => if x = 16 then 4 else 0) Ocs.std m = .ok (n, true) ∧ M44.IsAffine m ∧
-      V3.dot (applyDir m Ocs.std.ux) (applyDir m Ocs.std.uy) ≠ 0 := by
-  -- (c, s) = (3/5, 4/5) instead of 45° keeps everything rational: rows (3/5·2, 4/5), (-4/5·2, 3/5) have equal length iff ... use
-  -- the exact 45° analogue with a rational matrix: x̂ ↦ (2, 1, 0), ŷ ↦ (-2, 1, 0): lengths² 5 = 5, dot = -3, cross = (0,0,4)
-  refine ⟨⟨2, 1, 0, 0, -2, 1, 0, 0, 0, 0, 1, 0, 0, 0, 0, 1⟩, ⟨0, 0, 1⟩, ?_, ?_, ?_⟩ <;> decide +kernel
-
-/-- what holds: if the flag is set AND the two images are perpendicular, the plane map is a similarity (used below) -/
-theorem uniform_detected_iff_partial (sqrt : Rat → Rat) (old : Ocs) (m : M44) (n : V3) (u : Bool)
+/-- uniform_detected_iff (full strength; was false before the fix 09cb6723e, finding C12-F1): the flag is set exactly when
+    the two image axes have (numerically) equal length AND stay (numerically) perpendicular — in particular a set flag
+    bounds the cosine of the angle between them by 1e-9, so circles stay circles -/
+theorem uniform_detected_iff (sqrt : Rat → Rat) (old : Ocs) (m : M44) (n : V3) (u : Bool)
     (h : transformExtrusion sqrt old m = .ok (n, u)) :
-    (magSq (applyDir m old.ux) = magSq (applyDir m old.uy) → u = true) ∧
-    (u = false → magSq (applyDir m old.ux) ≠ magSq (applyDir m old.uy)) := by
-  refine ⟨uniform_detected_of_similar sqrt old m n u h, fun hu heq => ?_⟩
-  rw [uniform_detected_of_similar sqrt old m n u h heq] at hu
-  cases hu
+    u = true ↔
+      (pyIsclose (magSq (applyDir m old.ux)) (magSq (applyDir m old.uy)) tol9 tol9 = true ∧
+       pyAbs (V3.dot (applyDir m old.ux) (applyDir m old.uy)) ≤
+         tol9 * (if magSq (applyDir m old.ux) < magSq (applyDir m old.uy) then magSq (applyDir m old.uy)
+                 else magSq (applyDir m old.ux))) := by
+  rw [uniform_flag_spec sqrt old m n u h]
+  simp [uniformTest]
+
+/-- regression fact: "rotate by 45° about z, then scale x by 2" (images (2,1,0), (-2,1,0): equal length, dot -3), which the
+    unfixed code accepted as uniform, is rejected now -/
+theorem uniform_rejects_shear :
+    transformExtrusion (fun x => if x = 16 then 4 else 0) Ocs.std ⟨2, 1, 0, 0, -2, 1, 0, 0, 0, 0, 1, 0, 0, 0, 0, 1⟩
+      = .ok (⟨0, 0, 1⟩, false) := by
+  decide +kernel
 
 /-- CIRCLE / ARC / LWPOLYLINE: the error is raised exactly when the flag is off (and, for polylines, a bulge exists); a
     transform that raises returns no entity at all (the model is a pure function: "the entity is left unchanged"), and a
@@ -503,6 +515,15 @@ theorem insert_matrix_law (old new : Ocs) (m : M44) (i i' : Ins) (base : V3)
   · linear_combination (p.x - base.x) * hx2 + (p.y - base.y) * hy2 + (p.z - base.z) * hz2 + hi2
   · linear_combination (p.x - base.x) * hx3 + (p.y - base.y) * hy3 + (p.z - base.z) * hz3 + hi3
 
+/-- a tilted orthonormal right-handed OCS: extrusion (-2/3, 2/3, -1/3) -/
+def tilt : Ocs := ⟨true, ⟨1/3, 2/3, 2/3, 0, 2/3, 1/3, -2/3, 0, -2/3, 2/3, -1/3, 0, 0, 0, 0, 1⟩⟩
+/-- rotation (3/5, 4/5) about z combined with scaling by 5 and a translation -/
+def rot5 : M44 := ⟨3, 4, 0, 0, -4, 3, 0, 0, 0, 0, 5, 0, 7, 8, 9, 1⟩
+def mirrorX : M44 := ⟨-1, 0, 0, 0, 0, 1, 0, 0, 0, 0, 1, 0, 0, 0, 0, 1⟩
+/-- exact square roots on the squares that occur in the examples -/
+def sqrt100 : Rat → Rat := fun x =>
+  if x = 1 then 1 else if x = 4 then 2 else if x = 16 then 4 else if x = 25 then 5 else if x = 100 then 10 else if x = 625 then 25 else 0
+
 /-- exact square roots for the two examples below -/
 def sqrtEx : Rat → Rat := fun x => if x = 4 then 2 else if x = 1 then 1 else 0
 
@@ -513,17 +534,27 @@ theorem insert_unrotated_example :
         = M44.mul (insertMatrix Ocs.std ⟨⟨1, 2, 0⟩, 3, 1, 1, ⟨1, 0⟩⟩ ⟨0, 0, 0⟩) ⟨2, 0, 0, 0, 0, 1, 0, 0, 0, 0, 1, 0, 0, 0, 0, 1⟩ := by
   refine ⟨⟨⟨2, 2, 0⟩, 6, 1, 1, ⟨2, 0⟩⟩, ?_, ?_⟩ <;> decide +kernel
 
-/-- FINDING C12-Fa / C15-F1 (model = code): the full statement
-      `Ins.transform … = ok i' → matrix44(i') = matrix44(i) · m`
-    is FALSE for rotated references: the scale factors are measured on the unrotated OCS axes.  Witness = the reported
-    repro: rotation 90°, Matrix44.scale(2, 1, 1): the transformed INSERT gets xscale 2 (the block's x-axis points along WCS y,
-    which is not stretched), so the block point (1, 0, 0) lands at (0, 2, 0) instead of (0, 1, 0). -/
-theorem insert_rotated_counterexample :
-    ∃ (i i' : Ins) (m : M44), i.rot ≠ ⟨1, 0⟩ ∧ M44.IsAffine m ∧ Ins.transform sqrtEx Ocs.std Ocs.std m i tol9 = .ok i' ∧
-      apply (insertMatrix Ocs.std (i'.unitRot sqrtEx) ⟨0, 0, 0⟩) ⟨1, 0, 0⟩ = ⟨0, 2, 0⟩ ∧
-      apply m (apply (insertMatrix Ocs.std i ⟨0, 0, 0⟩) ⟨1, 0, 0⟩) = ⟨0, 1, 0⟩ := by
-  refine ⟨⟨⟨0, 0, 0⟩, 1, 1, 1, ⟨0, 1⟩⟩, ⟨⟨0, 0, 0⟩, 2, 1, 1, ⟨0, 1⟩⟩, ⟨2, 0, 0, 0, 0, 1, 0, 0, 0, 0, 1, 0, 0, 0, 0, 1⟩, ?_, ?_, ?_, ?_, ?_⟩ <;>
-    decide +kernel
+/-- the former counterexample of finding C12-Fa / C15-F1 (fixed by 603b8b3fe): a reference rotated by 90° under
+    Matrix44.scale(2, 1, 1).  The scale factors are now measured on the reference's own axes: the block x-axis points along
+    WCS y (not stretched, xscale stays 1), the block y-axis along -x (yscale 2), and matrix44(new) = matrix44(old) · m;
+    the block point (1, 0, 0) lands at (0, 1, 0) (it was (0, 2, 0)). -/
+theorem insert_rotated_example :
+    ∃ i', Ins.transform sqrtEx Ocs.std Ocs.std ⟨2, 0, 0, 0, 0, 1, 0, 0, 0, 0, 1, 0, 0, 0, 0, 1⟩ ⟨⟨0, 0, 0⟩, 1, 1, 1, ⟨0, 1⟩⟩ tol9 = .ok i' ∧
+      i'.sx = 1 ∧ i'.sy = 2 ∧
+      insertMatrix Ocs.std (i'.unitRot sqrtEx) ⟨0, 0, 0⟩
+        = M44.mul (insertMatrix Ocs.std ⟨⟨0, 0, 0⟩, 1, 1, 1, ⟨0, 1⟩⟩ ⟨0, 0, 0⟩) ⟨2, 0, 0, 0, 0, 1, 0, 0, 0, 0, 1, 0, 0, 0, 0, 1⟩ ∧
+      apply (insertMatrix Ocs.std (i'.unitRot sqrtEx) ⟨0, 0, 0⟩) ⟨1, 0, 0⟩ = ⟨0, 1, 0⟩ := by
+  refine ⟨⟨⟨0, 0, 0⟩, 1, 2, 1, ⟨0, 1⟩⟩, ?_, rfl, rfl, ?_, ?_⟩ <;> decide +kernel
+
+/-- a reference rotated by the Pythagorean angle (3/5, 4/5) with base point (1, 1, 1) under a MIRRORED similarity (factor 5):
+    the y-scale becomes negative and the four images of the block frame agree, i.e. matrix44(new) = matrix44(old) · m -/
+theorem insert_rotated_mirrored_example :
+    ∃ i', Ins.transform sqrt100 Ocs.std Ocs.std (M44.mul mirrorX rot5) ⟨⟨1, 2, 3⟩, 2, 1, 1, ⟨3 / 5, 4 / 5⟩⟩ tol9 = .ok i' ∧
+      i'.sy < 0 ∧
+      [(⟨1, 0, 0⟩ : V3), ⟨0, 1, 0⟩, ⟨0, 0, 1⟩, ⟨0, 0, 0⟩].map (apply (insertMatrix Ocs.std (i'.unitRot sqrt100) ⟨1, 1, 1⟩))
+        = [(⟨1, 0, 0⟩ : V3), ⟨0, 1, 0⟩, ⟨0, 0, 1⟩, ⟨0, 0, 0⟩].map
+            (fun p => apply (M44.mul mirrorX rot5) (apply (insertMatrix Ocs.std ⟨⟨1, 2, 3⟩, 2, 1, 1, ⟨3 / 5, 4 / 5⟩⟩ ⟨1, 1, 1⟩) p)) := by
+  refine ⟨⟨⟨-4, 10, 24⟩, 10, -5, 5, ⟨-5, 0⟩⟩, ?_, ?_, ?_⟩ <;> decide +kernel
 
 /-! ## 7. nested block references, any depth -/
 
@@ -623,12 +654,6 @@ theorem upright_insert (i : Ins) (base : V3) : insertMatrix Ocs.std i.upright ba
 
 /-! ## non-vacuity: the hypotheses used above are met by non-trivial values -/
 
-/-- a tilted orthonormal right-handed OCS: extrusion (-2/3, 2/3, -1/3) -/
-def tilt : Ocs := ⟨true, ⟨1/3, 2/3, 2/3, 0, 2/3, 1/3, -2/3, 0, -2/3, 2/3, -1/3, 0, 0, 0, 0, 1⟩⟩
-/-- rotation (3/5, 4/5) about z combined with scaling by 5 and a translation -/
-def rot5 : M44 := ⟨3, 4, 0, 0, -4, 3, 0, 0, 0, 0, 5, 0, 7, 8, 9, 1⟩
-def mirrorX : M44 := ⟨-1, 0, 0, 0, 0, 1, 0, 0, 0, 0, 1, 0, 0, 0, 0, 1⟩
-def sqrt100 : Rat → Rat := fun x => if x = 100 then 10 else if x = 625 then 25 else if x = 1 then 1 else 0
 
 example : tilt.Orthonormal ∧ tilt.RightHanded ∧ Ocs.negZ.Orthonormal ∧ Ocs.negZ.RightHanded ∧ Ocs.std.Orthonormal := by
   decide +kernel
@@ -647,7 +672,7 @@ example : V3.smul 1 Ocs.negZ.uz = V3.cross (OcsT.ax ⟨mirrorX, Ocs.std, Ocs.neg
     ∧ OcsT.planeDet ⟨mirrorX, Ocs.std, Ocs.negZ, true⟩ = 1 := by decide +kernel
 -- thickness laws: hypotheses satisfiable (|m(2·ẑ)| = 10 under rot5)
 example : thicknessNoOcs sqrt100 rot5 (some 2) none = .ok (some 10, some ⟨0, 0, 1⟩) := by decide +kernel
-example : thicknessNoOcs sqrt100 rot5 (some (-2)) none = .ok (some (-10), some ⟨0, 0, -1⟩) := by decide +kernel
+example : thicknessNoOcs sqrt100 rot5 (some (-2)) none = .ok (some (-10), some ⟨0, 0, 1⟩) := by decide +kernel
 -- nested references: two levels, the leaf point is mapped by a·b
 example : Node.expand (.ref rot5 [.ref mirrorX [.point ⟨1, 0, 0⟩], .point ⟨0, 0, 0⟩]) = [⟨4, 4, 9⟩, ⟨7, 8, 9⟩] := by
   decide +kernel
